@@ -27,19 +27,19 @@ package keys
 //@ func Verify(pub *ecdsa.PublicKey, data []byte, r, s *big.Int) bool
 //@   safety on
 //@   modifies nothing
-//@   ensures[def] ret0 ==> pub != nil && pub.X != nil && pub.Y != nil && r != nil && s != nil && SigOK(g_bigval(pub.X), g_bigval(pub.Y), data, g_bigval(r), g_bigval(s))
+//@   ensures[def] ret0 ==> pub != nil && pub.X != nil && pub.Y != nil && r != nil && s != nil && SigOK(G_bigval(pub.X), G_bigval(pub.Y), data, G_bigval(r), G_bigval(s))
 
 //@ func DecodeSignature(sig string) (r, s *big.Int, err error)
 //@   safety on
 //@   modifies nothing
 //@   ensures[nonnil] err == nil ==> r != nil && s != nil
-//@   ensures[value]  err == nil ==> SigWellFormed(sig) && g_bigval(r) == Parse36(SplitBar(sig)[0]) && g_bigval(s) == Parse36(SplitBar(sig)[1])
+//@   ensures[value]  err == nil ==> SigWellFormed(sig) && G_bigval(r) == Parse36(SplitBar(sig)[0]) && G_bigval(s) == Parse36(SplitBar(sig)[1])
 
 //@ func ToPublicKey(pub []byte) *ecdsa.PublicKey
 //@   safety on
 //@   modifies nothing
 //@   ensures[empty]  len(pub) == 0 ==> ret0 == nil
-//@   ensures[value]  ret0 != nil && ret0.X != nil ==> len(pub) > 0 && UnmOK(pub) && g_bigval(ret0.X) == UnmX(pub) && g_bigval(ret0.Y) == UnmY(pub)
+//@   ensures[value]  ret0 != nil && ret0.X != nil ==> len(pub) > 0 && UnmOK(pub) && G_bigval(ret0.X) == UnmX(pub) && G_bigval(ret0.Y) == UnmY(pub)
 
 //@ func PublicKeyID(pubBytes []byte) uint32
 //@   trusted definition of KeyID: FNV-1a hash of the key bytes
